@@ -157,6 +157,13 @@ def sysfaults(o, binary, rng, thorough):
                            {"op": "failwrites", "match": "sstable_compaction", "which": which, "pos": pos}, {"op": "compact"},
                            {"op": "getall", "k": 4}, {"op": "close"}]
             jobs.append(("compact", "partial-" + which, pos, steps, m3))
+    # an input table is damaged on disk (one flipped payload byte) after it was flushed and before the compaction reads it: reading that
+    # record fails its checksum, the compaction must report it and must not install a table built from it
+    for pos in ((9, 30, 70) if thorough else (9, 40)):
+        steps = base + [{"op": "rotate"}, {"op": "barrier"}, {"op": "put", "k": 1, "v": v2, "pad": 60}, {"op": "rotate"}, {"op": "barrier"},
+                        {"op": "damage", "match": "sstable_000000000000001", "which": "data.rio", "pos": pos}, {"op": "compact"},
+                        {"op": "getall", "k": 4}, {"op": "close"}]
+        jobs.append(("damagecompact", "data.rio", pos, steps, m2))
     # the flush of the replayed log inside Open: image of a kill with acknowledged writes in the log, ENOSPC while recovery writes the table
     for fname in ("data.rio", "index.rio", "meta.pb.bin"):
         for when in ((1, 2, 3) if thorough else (1, 2)):
@@ -218,6 +225,8 @@ def sysfaults(o, binary, rng, thorough):
         else:
             rc, out, err, to = common.run_proc([binary, "db", os.path.join(work, "in.json"), trace], 40, env=env)
         evs = common.read_ndjson(trace) if os.path.exists(trace) else []
+        if target == "damagecompact":
+            hit = any(e.get("t") == "note" and "damage armed" in e.get("name", "") and e["name"].endswith("<nil>") for e in evs)
         if target == "compact":
             hit = any(e.get("t") == "bgfail" or (e.get("t") == "note" and "armed" in e.get("name", "")) for e in evs)
             hit = hit and any(e.get("t") == "compact.select" and e.get("compacting") for e in evs)
